@@ -37,6 +37,10 @@ func (k Keeper) GetLatestPriceFromAssetAndSource(ctx sdk.Context, asset, source 
 	for ; iterator.Valid(); iterator.Next() {
 		var val types.Price
 		k.cdc.MustUnmarshal(iterator.Value(), &val)
+		// the key has no delimiter between asset and source: the prefix also matches other pairs
+		if val.Asset != asset || val.Source != source {
+			continue
+		}
 		return val, true
 	}
 
@@ -51,6 +55,10 @@ func (k Keeper) GetLatestPriceFromAnySource(ctx sdk.Context, asset string) (val 
 	for ; iterator.Valid(); iterator.Next() {
 		var val types.Price
 		k.cdc.MustUnmarshal(iterator.Value(), &val)
+		// the prefix also matches assets whose name starts with this one
+		if val.Asset != asset {
+			continue
+		}
 		return val, true
 	}
 
